@@ -6,7 +6,7 @@ import json, os, re, random, subprocess, time, collections, shutil
 import alverif as A
 
 
-VALID_CORPORA = ("C01", "C02a", "C02b", "C02c", "C02d", "C02e", "C02f", "C02g", "C02h", "C02i", "C02j", "C03", "C04a", "C04b", "C04c", "C04d", "C04e", "C04f",
+VALID_CORPORA = ("C01", "C02a", "C02b", "C02c", "C02d", "C02e", "C02f", "C02g", "C02h", "C02i", "C02j", "C02k", "C03", "C04a", "C04b", "C04c", "C04d", "C04e", "C04f",
                  "C05", "C05m", "C10a", "C10x", "C11s", "C11t")
 
 
